@@ -88,3 +88,28 @@ func (s *State) get(h string) string {
 	s.m[h] = v
 	return v
 }
+
+// projGet: the backing array of slice value sl in element heap h. Inside the definition of a recursive spec
+// function (stParam) a slice that is a formal parameter gets its backing array passed as a separate argument,
+// so that the function's value does not depend on unrelated parts of the heap.
+func (s *State) projGet(h, sl string) string {
+	if s.kind == stParam && len(sl) > 2 && sl[:2] == "a_" && !containsAny(sl, " ()") {
+		if _, ok := s.f.heapSort[h]; !ok {
+			panic("unknown heap " + h)
+		}
+		s.used[h+"|"+sl] = true
+		return s.f.sym(h + "@p@" + sl)
+	}
+	return sSel(s.get(h), "(s_ref "+sl+")")
+}
+
+func containsAny(s, chars string) bool {
+	for _, c := range s {
+		for _, d := range chars {
+			if c == d {
+				return true
+			}
+		}
+	}
+	return false
+}
